@@ -245,7 +245,7 @@ async fn main() {
             let mut out = String::new();
             if let Ok(mut c) = CURRENT.lock() {
                 c.clear();
-                let _ = write!(c, "{} tree -", esc(&line));
+                let _ = write!(c, "{} tree 0", esc(&line));
             }
             CASE_STARTED_MS.store(now_ms(), Ordering::SeqCst);
             let tr = std::panic::catch_unwind(std::panic::AssertUnwindSafe(|| {
